@@ -50,6 +50,17 @@ Definition sbml_num (n : number) : bool :=
 Definition all_kind (k : bool) (l : list (option bool)) : bool :=
   forallb (fun x => match x with Some b => Bool.eqb b k | None => false end) l.
 
+(* a power with a numeric exponent as the base of another numeric power, (a^p)^q: the arithmetic
+   core does not give these a unique form (pow(pow(a, -1), -2/3) built by the parser's div / pow
+   calls may come back as a^(2/3)), so the round trip is not claimed for them *)
+Definition is_num_expr (e : expr) : bool := match e with ENum _ => true | _ => false end.
+Definition num_power (e : expr) : bool := match e with EPow _ x => is_num_expr x | _ => false end.
+Definition tower (b x : expr) : bool := num_power b && is_num_expr x.
+(* a sum kept as a term of a sum / a product kept as a factor of a product: states the arithmetic
+   core can produce (2*(x+y) + z - (x+y)) but does not reproduce when the text is parsed back *)
+Definition is_add (e : expr) : bool := match e with EAdd _ _ => true | _ => false end.
+Definition is_mul (e : expr) : bool := match e with EMul _ _ => true | _ => false end.
+
 Fixpoint sbml_kind (e : expr) : option bool :=
   match e with
   | ENum n => if sbml_num n then Some false else None
@@ -57,11 +68,14 @@ Fixpoint sbml_kind (e : expr) : option bool :=
   | EConst nm => if beq nm nm_pi || beq nm name_E then Some false else None
   | EAdd c d =>
       if sbml_num c && forallb (fun p => sbml_num (snd p)) d
-         && all_kind false (List.map (fun p => sbml_kind (fst p)) d) then Some false else None
+         && all_kind false (List.map (fun p => sbml_kind (fst p)) d)
+         && forallb (fun p => negb (is_add (fst p))) d then Some false else None
   | EMul c d =>
       if sbml_num c && all_kind false (List.map (fun p => sbml_kind (fst p)) d)
-         && all_kind false (List.map (fun p => sbml_kind (snd p)) d) then Some false else None
-  | EPow a c => if all_kind false [sbml_kind a; sbml_kind c] then Some false else None
+         && all_kind false (List.map (fun p => sbml_kind (snd p)) d)
+         && forallb (fun p => negb (tower (fst p) (snd p)) && negb (is_mul (fst p) && is_num_expr (snd p))) d
+      then Some false else None
+  | EPow a c => if all_kind false [sbml_kind a; sbml_kind c] && negb (tower a c) then Some false else None
   | EF1 code a =>
       if existsb (N.eqb code) sbml_f1 && all_kind false [sbml_kind a] then Some false else None
   | EF2 code a c =>
